@@ -112,6 +112,8 @@ def impl_pair(cfg1, o1, cfg2, o2, rng, hook=None):
         out.append(out[8])
         # and of the BroadcastToCommonSuffix walk
         out += [out[9], out[10]]
+        # and of the Compose pass
+        out.append(out[11])
         if hook is not None:
             hook(t1, t2, s1, s2, kw1, kw2, out)
         return tuple(out)
